@@ -260,9 +260,9 @@ func dedupInts(in []int, keep func(int) bool) []int {
 }
 
 func configs(r *vrt.R) []cfgSpec {
-	thr := []int{0, 1, 64}
+	thr := []int{0, 1, 64, 256}
 	if r.Thorough() {
-		thr = []int{0, 1, 2, 64, 127, 128, 256, 16384}
+		thr = []int{0, 1, 2, 64, 256, 16384}
 	}
 	var out []cfgSpec
 	for _, fc := range []bool{true, false} {
@@ -380,7 +380,7 @@ func enumFrames(r *vrt.R, cfg cfgSpec, emit func(*caseSpec) bool) bool {
 		}
 		for _, cl := range claims {
 			for _, l := range lens {
-				prefixes := r.Thorough() || l == "ok"
+				prefixes := r.Thorough() || l == "ok" || l == "ok+1"
 				if !one(frameSpec{Len: l, Claim: cl, Data: d}, prefixes) {
 					return false
 				}
